@@ -81,6 +81,16 @@ func (c *monC13) unusedRecovery(who string, pre harness.User, code string) bool 
 	return true
 }
 
+// spend: a completed enrolment uses up the session's e-mail authorisation. The
+// mark lives in the client's session, so it can only go with a response that was
+// written: a request cut short by a backend fault under the silent error handler
+// writes nothing and leaves the session as it was.
+func (c *monC13) spend(b int, r *harness.Resp) {
+	if r.Fired == "" || r.Wrote {
+		c.authed[b] = false
+	}
+}
+
 func (c *monC13) Init(m *Machine) {
 	n := len(m.W.Jars)
 	c.sms, c.issued, c.authed = make([]*smsSent, n), make([]string, n), make([]bool, n)
@@ -107,6 +117,9 @@ func (c *monC13) After(m *Machine, s *Step) *Violation {
 	prevSMS := c.sms[b]
 	if n := len(r.SMS); n > 0 {
 		c.sms[b] = &smsSent{code: r.SMS[n-1].Code, number: r.SMS[n-1].Number}
+		if r.Fired != "" {
+			c.sms[b].alt = prevSMS // the faulted request may not have stored the new code in the session
+		}
 	}
 	uid := r.SessBefore[authboss.SessionKey]
 	_, half := r.SessBefore[authboss.SessionHalfAuthKey]
@@ -194,7 +207,7 @@ func (c *monC13) After(m *Machine, s *Step) *Violation {
 				return violation("C13", "totp-enabled-without-proof:"+op.K+":"+op.Src, "TOTP of %q was set to %q by %s with code %q (enrolling secret %q, valid %v)", pid, post.TOTPSecretKey, op.K, s.Secret, enrolling, a || z)
 			}
 			m.flag("enabled:totp")
-			c.authed[b] = false
+			c.spend(b, r)
 		case dT: // disabling TOTP
 			a, z := totpValidAt(s.Secret, pre.TOTPSecretKey, r.T0, r.T1)
 			okCode := !op.F && (a || z)
@@ -207,15 +220,16 @@ func (c *monC13) After(m *Machine, s *Step) *Violation {
 		switch {
 		case dS && post.SMSPhone != "": // enabling / changing the number
 			enrolling := r.SessBefore["sms_number"]
-			proof := prevSMS != nil && !prevSMS.consumed && prevSMS.code == s.Secret && prevSMS.number == enrolling && s.Secret != ""
+			hit := prevSMS.find(s.Secret, enrolling)
+			proof := hit != nil && s.Secret != ""
 			if op.K != "smsconfirm" || enrolling == "" || post.SMSPhone != enrolling || !proof {
 				return violation("C13", "sms-enabled-without-proof:"+op.K+":"+op.Src, "SMS number of %q was set to %q by %s with code %q; enrolling number %q; latest code for this browser %+v", pid, post.SMSPhone, op.K, s.Secret, enrolling, prevSMS)
 			}
-			prevSMS.consumed = true
+			hit.consumed = true
 			m.flag("enabled:sms")
-			c.authed[b] = false
+			c.spend(b, r)
 		case dS: // disabling SMS
-			okCode := !op.F && prevSMS != nil && !prevSMS.consumed && prevSMS.code == s.Secret && prevSMS.number == pre.SMSPhone && s.Secret != ""
+			okCode := !op.F && prevSMS.find(s.Secret, pre.SMSPhone) != nil && s.Secret != ""
 			okRec := op.F && c.unusedRecovery(pid, pre, s.Secret)
 			if op.K != "smsremove" || !(okCode || okRec) {
 				return violation("C13", "sms-disabled-without-proof:"+op.K+":"+op.Src, "SMS 2FA of %q (number %q) was removed by %s with %q (recovery field %v); latest code for this browser %+v", pid, pre.SMSPhone, op.K, s.Secret, op.F, prevSMS)
@@ -226,18 +240,18 @@ func (c *monC13) After(m *Machine, s *Step) *Violation {
 		}
 		if dR && !dT && !(dS && post.SMSPhone != "") {
 			// re-enrolment of the very same number / secret still issues a fresh set of codes
-			sameSMS := op.K == "smsconfirm" && prevSMS != nil && !prevSMS.consumed && prevSMS.code == s.Secret && s.Secret != "" &&
-				prevSMS.number == r.SessBefore["sms_number"] && post.SMSPhone == r.SessBefore["sms_number"]
+			hit := prevSMS.find(s.Secret, r.SessBefore["sms_number"])
+			sameSMS := op.K == "smsconfirm" && hit != nil && s.Secret != "" && post.SMSPhone == r.SessBefore["sms_number"]
 			a, z := totpValidAt(s.Secret, r.SessBefore["totp_secret"], r.T0, r.T1)
 			sameTOTP := op.K == "totpconfirm" && (a || z) && post.TOTPSecretKey == r.SessBefore["totp_secret"]
 			switch {
 			case sameSMS:
-				prevSMS.consumed = true
+				hit.consumed = true
 				m.flag("enabled:sms")
-				c.authed[b] = false
+				c.spend(b, r)
 			case sameTOTP:
 				m.flag("enabled:totp")
-				c.authed[b] = false
+				c.spend(b, r)
 			case op.K == "regen":
 				m.flag("regenerated")
 			case consumedOneRecovery(pre, post, s):
@@ -295,6 +309,8 @@ var profC13 = profile{
 	must: []string{"auth", "logout"}, may: []string{"remember", "otp"},
 	mustSetups: []string{"recovery"}, setups: []string{"totp", "sms"}, kinds: kindsC13, minOps: 14, maxOps: 34,
 	accts: [2]int{2, 3}, browsers: [2]int{1, 2}, middlewares: []string{"", "remember"},
+	// the enrolment routes and their e-mail gate must hold whichever backend call fails
+	faultPct: 12, faultOps: []string{"totpsetup", "totpconfirm", "smssetup", "smsconfirm", "get"},
 	tweak: func(t *rapid.T, c *harness.Config) {
 		if !c.HasSetup("totp") && !c.HasSetup("sms") {
 			c.Setups = append(c.Setups, pick(t, "force2fa", "totp", "sms"))
